@@ -67,13 +67,35 @@ def gen_field(r, depth, odd):
     return d
 
 
+# parameters that decide neither the kind of clause (term-level / full text) nor the nesting
+LEAF_DECOR = [("analyzer", "keyword"), ("analyzer", "standard"), ("search_analyzer", "keyword"), ("norms", False),
+              ("store", True), ("null_value", "NULL"), ("ignore_above", 256), ("boost", 2), ("doc_values", False),
+              ("copy_to", "all"), ("fielddata", True), ("normalizer", "lc"), ("index_options", "docs"),
+              ("format", "yyyy-MM-dd"), ("eager_global_ordinals", True), ("similarity", "boolean")]
+CONTAINER_DECOR = [("include_in_parent", True), ("include_in_root", True), ("include_in_parent", False),
+                   ("dynamic", "strict"), ("dynamic", False), ("enabled", True), ("include_in_all", False)]
+
+
+def decorate(r, d):
+    is_cont = d.get("type") in ("object", "nested") or "properties" in d
+    if r.random() < 0.3:
+        for _ in range(r.randrange(1, 3)):
+            k, v = r.choice(CONTAINER_DECOR if is_cont else LEAF_DECOR)
+            d.setdefault(k, v)
+    for sub in (d.get("fields") or {}).values():
+        if isinstance(sub, dict) and r.random() < 0.2:
+            k, v = r.choice(LEAF_DECOR)
+            sub.setdefault(k, v)
+    return d
+
+
 def gen_props(r, depth, n, odd):
     props = {}
     for _ in range(n):
         name = pick_name(r)
         if odd and r.random() < 0.04:
             name = r.choice(["a.b", "n.o"])
-        props[name] = gen_field(r, depth, odd)
+        props[name] = decorate(r, gen_field(r, depth, odd))
     return props
 
 
@@ -195,6 +217,23 @@ def fixed_schemas():
         cur({"o": {"type": "nested", "fields": {"r1": KW, "r2": {"type": "object", "properties": {"z": KW}}},
                    "properties": {"h": TX}}}),
         {"mappings": {"properties": {}, "d": {"properties": {"a": KW}}}},
+        # mapping parameters that decide neither the kind of clause nor the nesting: an analyzer named "keyword" on
+        # a text field is still analysed text (and so is a plain text sub-field below it); a nested field copied to
+        # its parent / the root is still a nested field, also inside an object or another nested field
+        cur({"code": {"type": "text", "analyzer": "keyword", "fields": {"words": {"type": "text"}, "raw": KW,
+                                                                          "std": {"type": "text", "analyzer": "standard"}}}}),
+        {"mappings": {"d": {"properties": {"code": {"type": "string", "analyzer": "keyword",
+                                                    "fields": {"words": {"type": "string"}}}}}}},
+        cur({"n": {"type": "nested", "properties": {"code": {"type": "text", "analyzer": "keyword", "search_analyzer": "keyword",
+                                                               "fields": {"words": TX}}}}}),
+        cur({"comment": {"type": "nested", "include_in_root": True, "properties": {"stars": KW, "text": TX}},
+             "o": {"properties": {"c": {"type": "nested", "include_in_parent": True, "properties": {"k": KW}}}}}),
+        cur({"order": {"type": "nested", "properties": {"ref": KW, "line": {
+            "type": "nested", "include_in_parent": True, "properties": {"sku": KW, "label": TX}}}}}),
+        cur({"order": {"type": "nested", "include_in_parent": False, "include_in_root": False, "properties": {"line": {
+            "type": "nested", "include_in_root": True, "properties": {"sku": KW}}}}}),
+        {"mappings": {"d": {"properties": {"comment": {"type": "nested", "include_in_parent": True,
+                                                       "properties": {"stars": {"type": "string", "index": "not_analyzed"}}}}}}},
     ]
 
 
